@@ -169,6 +169,9 @@ def repr_checks(q, par, ch):
     n = 0
     names = {l: "N" + l[1:] for l in par}
     attrs = {"zeta": 1, "alpha": "x", "_hidden": 5, "Beta": None, "a": 2, "nam": [3], "me": "m", "names": ()}
+    # numbered attributes reaching two digits, a name next to its own extension by a digit (sorted by *name*: col1 < col10 < col2)
+    attrs.update({"col%d" % i: i for i in range(1, 13)})
+    attrs.update({"x": 0, "x1": 1, "x-": 2})
     shown = ", ".join("%s=%r" % (k, v) for k, v in sorted(attrs.items()) if not k.startswith("_"))
     for sep, cls in (("/", Node), (";", type("SemiNode", (Node,), {"separator": ";"}))):
         objs = {l: cls(names[l], **attrs) for l in par}
